@@ -25,7 +25,7 @@ from __future__ import annotations
 import ast
 
 from .. import sym
-from ..model import AnalysisError, Program, attr_chain, bind_args, norm_stmt
+from ..model import AnalysisError, Program, attr_chain, bind_args, norm_stmt, visible_nodes
 from ..paths import Engine, Hooks, Opaque, Seq, State, Const
 from ..report import Result
 from ..selftest import Variant
@@ -145,8 +145,47 @@ def _inputs_name(lfi) -> str:
     return _INPUTS_CACHE[id(lfi.node)]
 
 
-def _enum_local_from_string(fn: ast.FunctionDef, local: str, param: str, enum: str) -> bool:
-    """every binding of `local` in fn is `<enum>.<M>` inside the branch taken when `param == <enum>.<M>.name` (same M), >= 2 members"""
+def _name_to_member_table(node: ast.expr, enum: str) -> int:
+    """number of members if `node` maps the NAME of each listed member of `enum` to that member, else 0:
+    {E.A.name: E.A, E.B.name: E.B}   |   {m.name: m for m in (E.A, E.B)}"""
+    if isinstance(node, ast.Dict) and node.keys:
+        n = 0
+        for k, v in zip(node.keys, node.values):
+            kc, vc = (attr_chain(k) if k is not None else None), attr_chain(v)
+            if not (kc and vc and vc.startswith(enum + ".") and kc == vc + ".name"):
+                return 0
+            n += 1
+        return n
+    if isinstance(node, ast.DictComp) and len(node.generators) == 1 and not node.generators[0].ifs and isinstance(node.generators[0].target, ast.Name):
+        g = node.generators[0]
+        v = g.target.id
+        if attr_chain(node.key) == f"{v}.name" and isinstance(node.value, ast.Name) and node.value.id == v and isinstance(g.iter, (ast.Tuple, ast.List)) \
+                and all((attr_chain(e) or "").startswith(enum + ".") for e in g.iter.elts):
+            return len(g.iter.elts)
+    return 0
+
+
+def _enum_local_from_string(fn: ast.FunctionDef, local: str, param: str, enum: str, consts=None) -> bool:
+    """every binding of `local` in fn is `<enum>.<M>` inside the branch taken when `param == <enum>.<M>.name` (same M), >= 2 members;
+    or its one binding looks `param` up in a table from member names to members (TABLE.get(param) / TABLE[param], the table
+    a literal or a comprehension over listed members, local or at module level), with `None` as the only other outcome"""
+    binds = [s_ for s_ in ast.walk(fn) if isinstance(s_, ast.Assign) and any(isinstance(t_, ast.Name) and t_.id == local for t_ in s_.targets)]
+    if len(binds) == 1:
+        v = binds[0].value
+        tab = None
+        if isinstance(v, ast.Call) and isinstance(v.func, ast.Attribute) and v.func.attr == "get" and len(v.args) in (1, 2) and ast.unparse(v.args[0]) == param \
+                and (len(v.args) == 1 or (isinstance(v.args[1], ast.Constant) and v.args[1].value is None)):
+            tab = v.func.value
+        elif isinstance(v, ast.Subscript) and ast.unparse(v.slice) == param:
+            tab = v.value
+        if isinstance(tab, ast.Name):
+            local_defs = [s_ for s_ in ast.walk(fn) if isinstance(s_, ast.Assign) and any(isinstance(t_, ast.Name) and t_.id == tab.id for t_ in s_.targets)]
+            if len(local_defs) == 1:
+                tab = local_defs[0].value
+            elif not local_defs and consts and tab.id in consts:
+                tab = consts[tab.id]
+        if tab is not None and _name_to_member_table(tab, enum) >= 2:
+            return True
     members = 0
 
     def walk(stmts, guard_members):
@@ -526,11 +565,26 @@ def _check_loader(prog: Program, res: Result, lfi, sec_tabs):
         sel = allv
         for test, pol in guards:
             for enum, attr in (("BHPipeType", "pipe"), ("DesignGeomType", "geometric_constraints")):
+                if sec != attr:
+                    continue
                 mem = enum_members_in(prog, test, enum)
-                if mem and sec == attr:
+                if mem:
                     if isinstance(test, ast.Compare) and isinstance(test.ops[0], ast.Eq) and len(mem) == 1:
                         m = next(iter(mem))
                         sel = [k for k in sel if (k[1] == m) == pol]
+                    elif isinstance(test, ast.Compare) and len(test.ops) == 1 and isinstance(test.ops[0], (ast.In, ast.NotIn)) and isinstance(test.comparators[0], (ast.List, ast.Tuple, ast.Set)):
+                        want = pol == isinstance(test.ops[0], ast.In)
+                        sel = [k for k in sel if (k[1] in mem) == want]
+                elif isinstance(test, ast.Compare) and len(test.ops) == 1 and isinstance(test.ops[0], (ast.In, ast.NotIn)) and isinstance(test.comparators[0], ast.Name):
+                    # membership in a table bound once in the loader (a dict of setters keyed by the enum members, a tuple of members)
+                    nm = test.comparators[0].id
+                    ds = [a for a in ast.walk(lfi.node) if isinstance(a, ast.Assign) and any(isinstance(t, ast.Name) and t.id == nm for t in a.targets)]
+                    if len(ds) == 1 and isinstance(ds[0].value, (ast.Dict, ast.List, ast.Tuple, ast.Set)):
+                        keys = ds[0].value.keys if isinstance(ds[0].value, ast.Dict) else ds[0].value.elts
+                        mem2 = {attr_chain(k_).split(".")[1] for k_ in keys if k_ is not None and (attr_chain(k_) or "").startswith(enum + ".")}
+                        if mem2 and len(mem2) == len(keys):
+                            want = pol == isinstance(test.ops[0], ast.In)
+                            sel = [k for k in sel if (k[1] in mem2) == want]
         return sel
 
     for sec, key, kind, guards, node in v.reads:
@@ -989,7 +1043,7 @@ def _check_roundtrip(prog: Program, res: Result, sec_tabs):
                     okc = False
             elif cparam == "flow_type":
                 # a local that is FlowConfigType.<M> exactly when the string parameter equals FlowConfigType.<M>.name
-                if not (isinstance(got_arg, ast.Name) and _enum_local_from_string(sd.node, got_arg.id, "flow_type_str", "FlowConfigType")):
+                if not (isinstance(got_arg, ast.Name) and _enum_local_from_string(sd.node, got_arg.id, "flow_type_str", "FlowConfigType", prog.modules[sd.module].constants)):
                     okc = False
             else:
                 okc = False
@@ -1028,7 +1082,13 @@ def _check_enums(prog: Program, res: Result, wfi, lfi):
     mgr = prog.cls(f"{MGR}.GHEManager")
 
     def cmp_members(fi, enum):
-        return enum_members_in(prog, fi.node, enum)
+        # the function's own nodes and those of the module-level tables it refers to (NAMES = {m.name: m for m in (A, B, ..)})
+        out = set()
+        for n_ in visible_nodes(prog, fi):
+            c = attr_chain(n_) if isinstance(n_, ast.Attribute) else None
+            if c and c.startswith(enum + "."):
+                out.add(c.split(".")[1])
+        return out
 
     def dict_key_members(fi, enum):
         out = set()
@@ -1099,7 +1159,6 @@ def _check_enums(prog: Program, res: Result, wfi, lfi):
                       f"the pipe schemas allow {sorted(pipe_allowed)} but BHPipeType has {sorted(pipe)}")
     # each geometry class writes its own method constant, and the schema the validator maps it to expects it
     vmap = {}
-    from ..model import visible_nodes
 
     for n in visible_nodes(prog, vg):
         if isinstance(n, ast.Dict):
